@@ -263,3 +263,15 @@ Example C18_witness :
      VNone; VNone; VNone; VS (s2l "u2"); VL []; show_nid a].
 Proof. vm_compute. split; reflexivity. Qed.
 Print Assumptions C18_witness.
+
+(* GLUE to C14 and C19 (Proofs/Glue_quote.v, docs/Glue.md): the quoting inside code() is C14's quote except that the
+   slash is kept (an instance of the single round-trip theorem), and the cache key of C19 (Model/Cache.v code) is THIS
+   code, read through toC (an absent or empty attribute is the empty string there): injectivity of code
+   (C18 above) is injectivity of the cache key. *)
+From PV Require Model.Cache Proofs.Glue_quote.
+Theorem C18_code_is_the_cache_key_of_C19 :
+  forall n, Cache.code (Glue_quote.toC n) = code n /\
+            (forallb (fun c => negb (c =? 47)) (Glue_quote.od (n_text n)) = true ->
+             quote_s (Glue_quote.od (n_text n)) = quote (Glue_quote.od (n_text n))).
+Proof. intros n. split; [exact (Glue_quote.code_same n)|exact (Glue_quote.quote_s_is_codec_quote _)]. Qed.
+Print Assumptions C18_code_is_the_cache_key_of_C19.
